@@ -5,6 +5,27 @@ COMMON_NOTE = ("Trusted: Lean 4.33 kernel (axioms propext, Classical.choice, Quo
                "regenerating Generated.lean from the sources and by replaying implementation traces through the model.")
 PENDING_REASON = {}
 CLAIMS = {
+    "C14": {
+        "text": "`available_memory` provably enters the build ONLY through the batch-length oracle (build with any memory value = build "
+                "without, C14_any_memory), and C01/C02/C03 are proved for every oracle stream, so the forest and the answers do not depend "
+                "on the hint. Termination: every bounded loop of the model provably never runs out of its own fuel (batch loop, "
+                "make-tree depth, reify, delete-tree); in the re-split loop a batch larger than the capacity provably yields a split "
+                "node (progress, what repair G guarantees) while a fitting batch is provably a fixed point (the repaired livelock). "
+                "Real crate: memory in {0, a page, ~items, ample, unset} x item counts around the 200-item minimum x split_after on both "
+                "sides of the batch, first and incremental builds, hang detection by a poll limit.",
+        "note": COMMON_NOTE + " Termination of the re-split loop for an arbitrary RNG is probabilistic and not a theorem.",
+        "technique": "Lean 4 theorems (oracle-independence, fuel sufficiency, progress / fixed point) + memory-hint lattice on the real crate with hang detection",
+    },
+    "C20": {
+        "text": "The forest, store and search theorems (C01, C05, C03) carry no hypothesis on vector values: NaN, infinities, zeros, "
+                "duplicates are ordinary bit patterns of the model. Proved in addition: the side function is total on every bit pattern "
+                "(zero or NaN margins fall to the random oracle), searches on a valid forest never fail and are well-formed for any "
+                "query bits, OrderedFloat's order is total on NaNs, an empty side always triggers the random split (all n < 2^53), the "
+                "build's only possible fuel failure is the re-split loop. Real crate: six degenerate data families x 7 metrics x n up "
+                "to hundreds (thousands in thorough), every build replayed through the model, every answer checked for well-formedness.",
+        "note": COMMON_NOTE + " Bounded build time is observed (poll limit), not proved (probabilistic termination).",
+        "technique": "Lean 4 totality theorems + value-independent forest/store/search theorems + degenerate-data differential replay",
+    },
     "C01": {
         "text": "Proved by induction over ALL histories ((add|append|overwrite|delete|clear)* build)+ on any indexes, for every oracle "
                 "stream (split normals, random sides, batch lengths = every memory hint), every option set, every cancellation "
